@@ -311,7 +311,7 @@ func (m *tfM) observe(s string, n int64) ([]tfObs, string) {
 						return false
 					}
 					for it := 0; ; it++ {
-						if it > 1300 {
+						if it > m.c.depth(1300, 12000) {
 							undec = "loop does not terminate within the folding limit"
 							return false
 						}
@@ -453,7 +453,7 @@ func hasOracle(o tfObs, atom string, truth bool) bool {
 	return false
 }
 
-func tfStrings() []string { return shortStrings(".#a1", 5) }
+func (c *Ctx) tfStrings() []string { return shortStrings(".#a1", c.depth(5, 6)) }
 
 // ---------------------------------------------------------------- C10
 
@@ -514,7 +514,7 @@ func c10Method(c *Ctx, m *tfM, isType bool) {
 		}
 	}
 	undec := ""
-	for _, s := range tfStrings() {
+	for _, s := range c.tfStrings() {
 		obs, why := m.observe(s, 2)
 		if why != "" {
 			undec = "path " + strconv.Quote(s) + ": " + why
@@ -722,7 +722,7 @@ func c11Method(c *Ctx, m *tfM, isSet bool) {
 		lens = []int64{0, 1, 2, 3}
 	}
 outer:
-	for _, s := range tfStrings() {
+	for _, s := range c.tfStrings() {
 		sp := m.spec(s)
 		if !sp.wrongHd && !sp.valid {
 			continue // empty first segment: outside C11's well-formed paths
